@@ -205,11 +205,9 @@ func (fi *File) Mode() (os.FileMode, error) {
 	defer fi.nodeLock.RUnlock()
 	verifSched("File.Mode:rlocked")
 
-	nd, err := fi.GetNode()
-	if err != nil {
-		return 0, err
-	}
-	fsn, err := ft.ExtractFSNode(nd)
+	// Read fi.node directly: GetNode would take nodeLock.RLock a second time,
+	// which deadlocks when a writer (setNodeData, flushUp) queues in between.
+	fsn, err := ft.ExtractFSNode(fi.node)
 	if err != nil {
 		return 0, err
 	}
@@ -247,11 +245,8 @@ func (fi *File) ModTime() (time.Time, error) {
 	defer fi.nodeLock.RUnlock()
 	verifSched("File.ModTime:rlocked")
 
-	nd, err := fi.GetNode()
-	if err != nil {
-		return time.Time{}, err
-	}
-	fsn, err := ft.ExtractFSNode(nd)
+	// See Mode: do not re-enter nodeLock through GetNode.
+	fsn, err := ft.ExtractFSNode(fi.node)
 	if err != nil {
 		return time.Time{}, err
 	}
